@@ -410,10 +410,7 @@ func Verif_C16_E9_Nested() {
 		}
 		verifC16CheckRetried(ref, outer, err)
 	} else {
-		how := 0
-		if vnd.Thorough() {
-			how = vnd.Choose(2)
-		}
+		how := vnd.Choose(2) // ToReader or ToChunkReader
 		got, err, _ = verifC16ConsumeStreamed(b, how, 0, ref.n)
 		verifC16CheckStreamed(ref, outer, 0, got, err)
 	}
@@ -461,4 +458,101 @@ func verifC16ConsumeStreamed(b Buffer, how, off, n int) (got []byte, err error, 
 		err = nil
 	}
 	return got, err, off
+}
+
+// verifE10Reader delivers data[:failAfter] (one byte per Read) and then fails.
+type verifE10Reader struct {
+	data      []byte
+	failAfter int
+	pos       int
+	closes    int
+	err       error
+}
+
+func (r *verifE10Reader) Read(p []byte) (int, error) {
+	if r.closes > 0 {
+		vnd.Unreachable("Read after Close")
+	}
+	if r.pos >= r.failAfter {
+		return 0, r.err
+	}
+	if len(p) == 0 {
+		return 0, nil
+	}
+	p[0] = r.data[r.pos]
+	r.pos++
+	return 1, nil
+}
+
+func (r *verifE10Reader) Close() error { r.closes++; return nil }
+
+type verifE10Handler struct {
+	replacement func() Buffer
+	calls, done int
+}
+
+func (h *verifE10Handler) OnError(err error) (Buffer, error) {
+	h.calls++
+	return h.replacement(), nil
+}
+func (h *verifE10Handler) Done() { h.done++ }
+
+// Verif_C16_E10_ReplacementWithOwnHandler: the replacement supplied by the handler is
+// itself a buffer with an error handler (as back ends routinely return), it is
+// opened at the offset reached so far, fails later as well, and ITS handler
+// supplies a healthy copy: the consumer still receives every byte exactly once,
+// both handlers are consulted once and finished once, all sources are closed.
+func Verif_C16_E10_ReplacementWithOwnHandler() {
+	n := 3
+	ref := verifNewRef(n)
+	j1 := 1 + vnd.Choose(n-1) // the original fails after 1..n-1 bytes
+	j2 := vnd.Choose(n - j1)  // the replacement delivers 0..n-j1-1 further bytes, then fails
+	ioErr := status.Error(codes.Unavailable, "verif: injected I/O error")
+	first := &verifE10Reader{data: ref.data, failAfter: j1, err: ioErr}
+	second := &verifE10Reader{data: ref.data, failAfter: j1 + j2, err: ioErr}
+	hB := &verifE10Handler{replacement: func() Buffer { return NewValidatedBufferFromByteSlice(ref.data) }}
+	hA := &verifE10Handler{replacement: func() Buffer {
+		return WithErrorHandler(NewCASBufferFromReader(ref.digest, second, UserProvided), hB)
+	}}
+	b := WithErrorHandler(NewCASBufferFromReader(ref.digest, first, UserProvided), hA)
+	var got []byte
+	var err error
+	switch vnd.Choose(4) {
+	case 0:
+		r := b.ToChunkReader(0, 2)
+		for i := 0; i < 10; i++ {
+			var c []byte
+			c, err = r.Read()
+			got = append(got, c...)
+			if err != nil {
+				break
+			}
+		}
+		r.Close()
+		if err == io.EOF {
+			err = nil
+		}
+	case 1:
+		w := &verifWriter{}
+		err = b.IntoWriter(w)
+		got = w.data
+	case 2:
+		r := b.ToReader()
+		got, err = io.ReadAll(r)
+		r.Close()
+	case 3:
+		got, err = b.ToByteSlice(10)
+	}
+	vnd.Assert(err == nil, "recovery through a replacement that has its own error handler failed")
+	vnd.Assert(len(got) == n, "consumer received a wrong number of bytes (a range was duplicated or skipped)")
+	if len(got) == n {
+		for i := 0; i < n; i++ {
+			vnd.Assert(got[i] == ref.data[i], "consumer received a byte that is not the object's byte at that position")
+		}
+	}
+	vnd.Assert(hA.calls == 1 && hB.calls >= 1, "handlers not consulted as expected")
+	vnd.Assert(hA.done == 1 && hB.done == 1, "a handler was not told exactly once that the buffer is finished")
+	vnd.Assert(first.closes == 1 && second.closes == 1, "a failed source was not closed exactly once")
+	vnd.Cover("recovered")
+	vnd.ObserveBytes("e10", got)
 }
